@@ -30,19 +30,19 @@ type violation struct {
 type q6 [5]float32 // cx, cy, cz, ex, ez
 
 type result struct {
-	Sequences      int         `json:"sequences"`
-	Insertions     int         `json:"insertions"`
-	Merges         int         `json:"merges"`
-	Appends        int         `json:"appends"`
-	GridGrowths    int         `json:"grid_growths"`
+	Sequences      int            `json:"sequences"`
+	Insertions     int            `json:"insertions"`
+	Merges         int            `json:"merges"`
+	Appends        int            `json:"appends"`
+	GridGrowths    int            `json:"grid_growths"`
 	GrowthDirs     map[string]int `json:"growth_directions"`
-	InvariantEvals int         `json:"invariant_evaluations"`
-	NonTrivial     int         `json:"nontrivial_sequences"`
-	MaxPlanes      int         `json:"max_planes"`
-	MaxCells       int         `json:"max_cells"`
-	PrimitiveCases int         `json:"primitive_cases"`
-	Violations     []violation `json:"violations"`
-	Samples        [][]q6      `json:"samples"`
+	InvariantEvals int            `json:"invariant_evaluations"`
+	NonTrivial     int            `json:"nontrivial_sequences"`
+	MaxPlanes      int            `json:"max_planes"`
+	MaxCells       int            `json:"max_cells"`
+	PrimitiveCases int            `json:"primitive_cases"`
+	Violations     []violation    `json:"violations"`
+	Samples        [][]q6         `json:"samples"`
 }
 
 func xyz(v dagaz.Vector3f) (float64, float64, float64) {
